@@ -40,6 +40,7 @@ def run(ctx, chk):
     chk.rule("C02.R7", "no count 0..255 makes a shift/rotate helper abort", floor=14)
     chk.rule("C02.R8", "shl and sal are the same operation", floor=2)
     chk.rule("C02.R9", "count>=1: flags outside the Intel write-set unchanged, written flags assigned on every path", floor=100)
+    chk.rule("C02.R11", "the `, cl` forms pass exactly CL (bits 0..7 of CX, zero extended) as the count", floor=6)
     chk.rule("C02.R10", "byte and word helper of a mnemonic have the same branch conditions, flag calls and result expression (no dropped operand, no single differing operator/constant)", floor=11)
     sibling_rule(ctx, chk)
     chk.rule("C02.R10", "byte and word tables bind the same mnemonics", floor=2)
@@ -225,8 +226,9 @@ def run(ctx, chk):
                 chk.ok("C02.R2", unit, f"{width} bits complemented, flags unchanged")
 
     # binary_logical / shift_rotate frames, TEST
-    for nt in ("binary_logical", "shift_rotate"):
-        for nt, k, p in G.instruction_productions(nt):
+    shift_fids = {v for nt_ in ("byte_shift_rotate", "word_shift_rotate") for v in tabs[nt_].values() if v}
+    for fam in ("binary_logical", "shift_rotate"):
+        for nt, k, p in G.instruction_productions(fam):
             label = G.prod_label(nt, k)
             where = f"{G.g['file']}:{p['line']}"
             syms = [s["name"] for s in p["symbols"]]
@@ -235,24 +237,33 @@ def run(ctx, chk):
             dest_sym = next(s for s in syms[1:] if s not in ('"byte"', '"word"'))
             for mk, mp in enumerate(G.productions(tab)):
                 m = [s["name"].strip('"') for s in mp["symbols"] if s["t"] == "term"][0]
-                if nt == "shift_rotate" and ctx.tier == "quick" and m not in ("sal", "rcr"):
+                if fam == "shift_rotate" and ctx.tier == "quick" and m not in ("sal", "rcr"):
                     continue
                 dest_regs = [None]
                 if dest_sym in ("byte_reg", "word_reg"):
                     n = len(G.productions(dest_sym))
                     dest_regs = list(range(n)) if (m == "test" or ctx.tier != "quick") else [0, n - 1]
 
-                for dr in dest_regs:
-                    def chooser(path, n, prods, dr=dr, mk=mk):
+                via = cl_alternative(G, syms) if fam == "shift_rotate" else None
+                for dr, force in [(d, None) for d in dest_regs] + ([(dest_regs[0], via)] if via else []):
+                    def chooser(path, n, prods, dr=dr, mk=mk, force=force):
                         if n == tab:
                             return mk
                         if n == dest_sym and dr is not None and len(path) == 1 and path[0] == 1:
                             return dr
+                        if force is not None and n == force[0]:
+                            return force[1]
                         return None
                     try:
                         I, st, v, r = run_interp_production(ctx, nt, k, chooser, overrides=ov)
                     except Unsupported as e:
                         chk.undecided_("C02.R3", f"{label}[{m}]", str(e))
+                        continue
+                    if force is not None:
+                        # the count nonterminal specialised to its CL alternative: only R11 is evaluated on this run
+                        for e in I.events:
+                            if e.kind == "call" and e.callee and any(c in shift_fids for c in e.callee) and "__action" in e.fn:
+                                count_is_cl(chk, e.args[-1], f"{label} [{m},{force[0]}=cl]", label, where)
                         continue
                     regs, mem, changed, written = machine(st)
                     unit = f"{label} [{m}{'' if dr is None else ',dest#' + str(dr)}]"
@@ -271,16 +282,60 @@ def run(ctx, chk):
                             chk.violation("C02.R3", f"{label} [{m}]", "writes-beyond-destination", f"writes {changed + written}", where)
                         else:
                             chk.ok("C02.R3", unit, f"writes {written} only")
-                    if nt == "shift_rotate":
+                    if fam == "shift_rotate":
                         # the count handed to the helper is within 0..255
                         for e in I.events:
-                            if e.kind == "call" and e.callee and any(c in P.fns and P.fns[c]["name"].startswith("instructions::bit_manipulation::") for c in e.callee) and "__action" in e.fn:
+                            if e.kind == "call" and e.callee and any(c in shift_fids for c in e.callee) and "__action" in e.fn:
                                 cnt = e.args[-1]
+                                if cl_form(G, syms):
+                                    count_is_cl(chk, cnt, unit, label, where)
                                 if cnt.kind == "int" and 0 <= cnt.lo and cnt.hi <= 255:
                                     chk.ok("C02.R7", unit + ":count-range", f"count in [{cnt.lo},{cnt.hi}]")
                                 else:
                                     chk.undecided_("C02.R7", unit + ":count-range", f"count value {cnt!r} outside the analysed 0..255")
                     report_aborts(chk, "C02.R7", unit, [e for e in I.events if "__action" in e.fn], where)
+
+
+def count_is_cl(chk, cnt, unit, label, where):
+    """R11: `, cl` forms hand the helper exactly CL: bits 0..7 of CX, zero extended"""
+    if cnt.kind != "int":
+        chk.undecided_("C02.R11", unit, f"count value {cnt!r} is not an integer")
+        return
+    copies = [(j, b) for j, b in enumerate(cnt.bits) if isinstance(b, tuple) and b[0] in ("c", "n")]
+    wrong = [(j, b) for j, b in copies if not (b[0] == "c" and b[1] == "cx" and b[2] == j and j < 8)]
+    if all(cnt.bits[i] == ("c", "cx", i) for i in range(8)) and all(b == 0 for b in cnt.bits[8:]):
+        chk.ok("C02.R11", unit, "count = CL zero extended")
+    elif wrong:
+        j, b = wrong[0]
+        chk.violation("C02.R11", label, "count-not-cl",
+                      f"the `, cl` form passes a count whose bit {j} is {'a copy' if b[0] == 'c' else 'the complement'} of {b[1].upper()} bit {b[2]}: "
+                      f"the count is CL (bits 0..7 of CX, zero extended) and nothing else", where)
+    else:
+        chk.undecided_("C02.R11", unit, f"count value {cnt!r} not tracked bit by bit")
+
+
+def cl_alternative(G, syms):
+    """(nonterminal, alternative) when the count comes from a nonterminal one of whose alternatives is the CL form"""
+    if cl_form(G, syms):
+        return None
+    for s in syms[-1:]:   # the count is the last operand
+        if s in G.nts and len(G.productions(s)) > 1:
+            for k, p in enumerate(G.productions(s)):
+                if cl_form(G, [x["name"] for x in p["symbols"] if x["t"] in ("term", "nt")]) and len([x for x in p["symbols"] if x["t"] in ("term", "nt")]) == 1:
+                    return (s, k)
+    return None
+
+
+def cl_form(G, syms):
+    """the production takes its count from CL: one of its symbols is the terminal "cl" or a nonterminal deriving only it"""
+    for s in syms[-1:]:   # the count is the last operand
+        if s == '"cl"':
+            return True
+        if s in G.nts:
+            ps = G.productions(s)
+            if ps and all([x["name"] for x in p["symbols"] if x["t"] in ("term", "nt")] == ['"cl"'] for p in ps):
+                return True
+    return False
 
 
 def sibling_rule(ctx, chk):
